@@ -335,7 +335,13 @@ func GenSemantic(r *hx.Rand, module string) *Bundle {
 					}
 				}
 			}
-			p.Files = append(p.Files, &NamedFile{Name: fmt.Sprintf("f%d", fi), File: f})
+			// file names with more than one dot: `f0.spec` and `f0.v2.spec` are two files with two
+			// generated files
+			fname := fmt.Sprintf("f%d", fi)
+			if fi > 0 && r.Intn(2) == 0 {
+				fname = fmt.Sprintf("f%d.v2", fi-1)
+			}
+			p.Files = append(p.Files, &NamedFile{Name: fname, File: f})
 		}
 		all = append(all, local...)
 		pkgs[id] = p
